@@ -52,3 +52,9 @@ Definition mvs_pat : ppat := PInst (PESub (pphi 0) 1 (pphi 1)) [(0, PEVar 2); (1
 
 (** D4c: a notation whose body is a bare metavariable, applied to phi1 *)
 Definition bare_pat : ppat := PInst (pphi 0) [(0, pphi 1)].
+
+(** D13 (pinned tree, repaired by a fix commit): equiv's format string was the f-string f'({0} <-> {1})',
+    i.e. the literal "(0 <-> 1)" without holes *)
+Definition equiv_def : ppat := and_p (PImp (pphi 0) (pphi 1)) (PImp (pphi 1) (pphi 0)).
+Definition equiv_pinned_nt : notation :=
+  {| nt_label := []; nt_arity := 2; nt_def := equiv_def; nt_fmt := [Lit [40;48;32;60;45;62;32;49;41]] |}.
